@@ -1,6 +1,9 @@
 use super::{CardPair, RankPair};
 use crate::card::{Card, Rank, RankRange, Suit, SuitRange};
 use crate::hand_range::{HandRangeToken, HandRangeTokenKind};
+#[cfg(espada_verif)]
+use crate::verif::SimBuildHasher as FxBuildHasher;
+#[cfg(not(espada_verif))]
 use fxhash::FxBuildHasher;
 use std::collections::{hash_map, HashMap};
 use std::fmt::Display;
